@@ -88,6 +88,9 @@ func c13Job(t *testing.T, raw json.RawMessage) (any, error) {
 		{"basic", "Basic dXNlcjpwYXNz"},
 		{"twice/garbage", "garbage"},
 		{"twice/rs512-other-key", "Bearer " + mkToken(jwt.SigningMethodRS512, otherKey, scopeAll)},
+		// requests whose sender has already hung up (the request context is done when the router gets them)
+		{"cancelled/absent", ""},
+		{"cancelled/rs512-other-key", "Bearer " + mkToken(jwt.SigningMethodRS512, otherKey, scopeAll)},
 	}
 	control := "Bearer " + mkToken(jwt.SigningMethodRS512, nrfKey, scopeAll)
 	// tokens tried right after the genuine one: its signature under another header and other claims, its first two
@@ -141,6 +144,9 @@ func c13Job(t *testing.T, raw json.RawMessage) (any, error) {
 						}
 						if strings.HasPrefix(tk.name, "twice/") {
 							hdr["Authorization#2"] = tk.hdr // the header field sent twice
+						}
+						if strings.HasPrefix(tk.name, "cancelled/") {
+							hdr["#cancelled"] = "1"
 						}
 						r := w.Do(rt.Method, path, string(bodyJSON), hdr)
 						vs.Quiesce()
